@@ -86,5 +86,23 @@ CHECKS = {
                  "no failure on the resume branch; publish honoured while CONNECTING. One known finding (queue not purged at a clean CONNACK). "
                  "NOT decided: exemption of requests made before the CONNACK; release of held-back messages as the window allows.",
          "note": BASE_NOTE, "technique": "lifecycle fact table (loss/resume/purge loop idioms per registry) + control dependence on the clean-session test"},
+ "C16": {"text": "Containment rules over the closure of dataReceived and of every timer target, all four protocol classes: decode() always inside "
+                 "a try catching Exception that reaches a close; the one dispatch-after-failed-decode sibling is tolerated only under three "
+                 "checked facts; type-nibble lookup guarded, unknown/broker-bound types only abort; hazards outside catching try (unbounded "
+                 "constant-table index, unguarded registry lookup by network id, None handle, fired handle); no abstract path of these entry "
+                 "points leaves by exception; every call resolves, no undefined name; packets outside their state/profile and corrupt packets "
+                 "have no delivery, success or registry effect. Value-level faults that do not raise are not decided.",
+         "note": BASE_NOTE + " Implicit exceptions are modelled for: decode(), registry lookups, None dereference, unresolved attributes, unbound names.",
+         "technique": "exceptional-edge path analysis + hazard (unchecked-use) rules + handle typestate + call resolution"},
+ "C17": {"text": "Three structural clauses: interval arithmetic over the folded constants of every return expression of the allocator (value within "
+                 "1..65535); who-may-assign: the msgId reaching encode() of PUBLISH (QoS>0)/SUBSCRIBE/UNSUBSCRIBE is an allocator result on every "
+                 "accepting path; the allocator reads every registry of unfinished requests (necessary for avoiding live identifiers after the "
+                 "counter wraps). Collision-freedom over concrete histories is not decided.",
+         "note": BASE_NOTE, "technique": "interval analysis on folded constants + def-use (who-may-assign) + read-set of the allocator closure"},
+ "C18": {"text": "Who-may-write table over all trigger contexts of all four classes: each write sends the whole encoding/stored buffer of one "
+                 "client-to-broker PDU object; CONNECT only by connect() in IDLE and nothing else written in IDLE; DISCONNECT only by "
+                 "disconnect() with a close after it; return to IDLE outside the loss closure closes the transport; loss closure writes "
+                 "nothing and cancels writing timers; W4 (no write reachable after DISCONNECT) is a recorded known finding.",
+         "note": BASE_NOTE + " Transport liveness is not modelled.", "technique": "who-may-write table over event x trigger context + phase reachability"},
 }
 NOT_APPLICABLE = {}
